@@ -2,6 +2,7 @@ import ModbusProofs.Lemmas.Frames
 import ModbusProofs.Lemmas.Slice
 import Modbus.Driver.JudgePacket
 import Modbus.Model.Builder
+import ModbusProofs.Properties.C06
 import Mathlib.Tactic.SplitIfs
 /-
   C11 — Coil lookup follows the Modbus bit layout and inverts the library's packing.
@@ -164,5 +165,46 @@ theorem coilLoop_strict_fails (payload : Bytes) (start : UInt16) (pre : List Fie
     unfold extractCoilLoop
     rw [hb]
     exact ih _ (fun x hx => hpre x (List.mem_cons_of_mem _ hx))
+
+/-- **builder → device → extraction for coils**: for every field list and coil / discrete-input target for which the
+request builder returns requests, every coil field is in exactly one request (permutation, C06), and for every request
+and every reply payload that holds at least the requested number of coils (what a conforming device sends), the
+lookup of EVERY field of that request succeeds - so strict extraction reports every field, each with the result of its
+own lookup (whose value is the Modbus-layout bit outside the known-finding region, `C11_partial`). -/
+theorem builder_coil_extract (fields : List Field) (target : Nat) (ht : target < 8) (hcoil : targetCoils target = true)
+    (reqs : List BReq) (h : split fields target = .ok reqs) :
+    (reqs.flatMap (·.fields)).Perm (fields.filter fun f => f.isCoil == true) ∧
+    ∀ b ∈ reqs, ∃ q, b.req = .read (targetFC target) b.unit b.start (UInt16.ofNat q) ∧ 1 ≤ q ∧ q ≤ 2000 ∧
+      ∀ (payload : Bytes), q ≤ payload.length * 8 →
+        (∀ f ∈ b.fields, ∃ v, isBitSet payload b.start f.addr = .ok v) ∧
+        extractCoilFields b payload false = .all (b.fields.map fun f => (f, coilVal payload b.start f)) := by
+  obtain ⟨hperm, hreqs⟩ := Modbus.Properties.C06.split_ok fields target ht reqs h
+  rw [hcoil] at hperm
+  refine ⟨hperm, ?_⟩
+  intro b hb
+  obtain ⟨q, hreq, hq1, hq2, _, hfs, _, _⟩ := hreqs b hb
+  have hlim : Modbus.Properties.C06.limitOf target = 2000 := by simp [Modbus.Properties.C06.limitOf, hcoil]
+  rw [hlim] at hq2
+  refine ⟨q, hreq, hq1, hq2, ?_⟩
+  intro payload hp
+  have hall : ∀ f ∈ b.fields, ∃ v, isBitSet payload b.start f.addr = .ok v := by
+    intro f hf
+    obtain ⟨_, _, hlo, hhi⟩ := hfs f hf
+    have hmem : f ∈ fields.filter fun f => f.isCoil == true :=
+      hperm.mem_iff.1 (List.mem_flatMap.2 ⟨b, hb, hf⟩)
+    have hty : f.type = 14 := by
+      have := (List.mem_filter.1 hmem).2
+      simpa [Field.isCoil] using this
+    have hsz : f.size = 1 := by unfold Field.size; simp [hty]
+    have hnl : ¬ f.addr < b.start := by
+      rw [UInt16.lt_iff_toNat_lt]; omega
+    have hsub : (f.addr - b.start).toNat = f.addr.toNat - b.start.toNat := by
+      rw [UInt16.toNat_sub_of_le _ _ (by rw [UInt16.le_iff_toNat_le]; exact hlo)]
+    have hin : (f.addr - b.start).toNat < payload.length * 8 := by rw [hsub]; omega
+    exact ⟨_, inside payload b.start f.addr hnl hin⟩
+  refine ⟨hall, ?_⟩
+  unfold extractCoilFields
+  have := coilLoop_strict_all_ok payload b.start b.fields [] hall
+  simpa using this
 
 end Modbus.Properties.C11
